@@ -98,3 +98,13 @@ Theorem C10_shape_eq_doc :
         /\ g = doc_wrap cfg t o (struct_kind_of sch (ty_base t)) inner.
 Proof. exact convert_type_shape. Qed.
 Print Assumptions C10_shape_eq_doc.
+
+(* the JSON tag of a generated response field is the response key (the GraphQL alias, which
+   defaults to the field name), whatever the `alias` option renames the Go field to *)
+From Verif Require Import Gen.Wf Proofs.ConvertNoPanicFull.
+Theorem C10_json_tag_is_the_response_key :
+  forall sch cfg frags srcs f src prefix containing Q done tmx a n fty p e sub l done' tmy,
+    css_step sch cfg frags srcs f src prefix containing Q (done, tmx) (SField a n fty p e sub l) = Ok (done', tmy) ->
+    exists fld, done' = done ++ [fld] /\ gf_json fld = a.
+Proof. exact step_field. Qed.
+Print Assumptions C10_json_tag_is_the_response_key.
